@@ -102,7 +102,7 @@ def install(w):
                 f"{A_('create_db_name')} is None or (isinstance({A_('create_db_name')}, str) and attaches({SQL}, {A_('create_db_name')}) and not {A_('table_comment')} and not {A_('text_lengths')})",
                 f"{A_('seed')} is None or (cls_is(transformed, exp.Select) and not {SPECIAL} and not {A_('table_comment')} and not {A_('text_lengths')})",
                 # bookkeeping arguments have the shapes their transforms give them
-                f"{A_('table_comment')} is None or (is_tuple({A_('table_comment')}) and seq_len({A_('table_comment')}) == 2 and isinstance(seq_at({A_('table_comment')}, 0), exp.Table) and isinstance(seq_at({A_('table_comment')}, 1), str))",
+                f"{A_('table_comment')} is None or (is_tuple({A_('table_comment')}) and seq_len({A_('table_comment')}) == 2 and isinstance(seq_at({A_('table_comment')}, 0), exp.Table) and not is_fresh(seq_at({A_('table_comment')}, 0)) and isinstance(seq_at({A_('table_comment')}, 1), str))",
                 f"{A_('text_lengths')} is None or is_list({A_('text_lengths')})",
                 # COMMIT / ROLLBACK carry none of the bookkeeping arguments and are not DESCRIBE/DDL statements
                 f"implies({CMD} in ('COMMIT', 'ROLLBACK'), not {SPECIAL} and not {A_('table_comment')} and not {A_('text_lengths')} and not {A_('seed')})",
@@ -183,15 +183,29 @@ def install(w):
                 # after USE DATABASE d DuckDB is at d.main: conn.schema must not keep naming a schema of the previous database
                 "C03.use.database_schema_consistent": f"implies(bool({A_('set_database')}) and not {A_('set_schema')}, self._conn.schema is None or self._conn.schema == 'MAIN')",
                 # C09: declared comments / text lengths are recorded, on this cursor's connection, for the statement's own catalog.schema.table
-                "C09.comment.recorded": f"implies(bool({A_('table_comment')}) and not {CMD}.startswith('DROP'), "
-                f"old(\"values ('\" + (seq_at(arg(transformed, 'table_comment'), 0).catalog or self._conn.database) + \"', '\" + (seq_at(arg(transformed, 'table_comment'), 0).db or self._conn.schema) + \"', '\" + seq_at(arg(transformed, 'table_comment'), 0).name + \"', '\" + seq_at(arg(transformed, 'table_comment'), 1) + \"')\") in trace_at({K0} + 1))",
-                "C09.text_lengths.recorded": f"implies(bool({A_('text_lengths')}) and old(find_table(transformed)) is not None and not {CMD}.startswith('DROP'), "
-                f"old('INSERT INTO ' + (find_table(transformed).catalog or self._conn.database) + '.information_schema._fs_columns_ext') in trace_at({K0} + (2 if bool({A_('table_comment')}) else 1)))",
+                **_c09_clauses(A_, CMD, K0),
                 "C03.ctx.else_unchanged": f"implies(not {A_('set_database')} and not {A_('set_schema')} and not {CMD}.startswith('DROP'), {CTX_SAME})",
             },
-            props=["C03", "C04", "C05", "C06", "C07", "C13"],
+            props=["C03", "C04", "C05", "C06", "C07", "C09", "C13"],
+            private=["C09."],
+            focus=[{"label": "bookkeeping", "assume": "bool(arg(transformed, 'table_comment')) or bool(arg(transformed, 'text_lengths'))", "only": ["C09."]}],
         )
     )
+
+
+
+def _c09_clauses(A_, CMD, K0):
+    """C09: a declared table comment / declared text lengths are recorded right after the statement itself, with the text
+    info_schema's builder gives for the statement's own catalog.schema.table (qualified parts of the name, else the
+    session's) and exactly the declared comment / lengths"""
+    TBL = "seq_at(arg(transformed, 'table_comment'), 0)"
+    FT = "find_table(transformed)"
+    return {
+        "C09.comment.recorded": f"implies(bool({A_('table_comment')}) and not {CMD}.startswith('DROP'), "
+        f"trace_at({K0} + 1) == old(comment_sql_of({TBL}.catalog or self._conn.database, {TBL}.db or self._conn.schema, {TBL}.name, seq_at(arg(transformed, 'table_comment'), 1))))",
+        "C09.text_lengths.recorded": f"implies(bool({A_('text_lengths')}) and old({FT}) is not None and not {CMD}.startswith('DROP'), "
+        f"trace_at({K0} + (2 if bool({A_('table_comment')}) else 1)) == old(text_lengths_sql_of({FT}.catalog or self._conn.database, {FT}.db or self._conn.schema, {FT}.name, arg(transformed, 'text_lengths'))))",
+    }
 
 
 def install_execute(w):
@@ -319,7 +333,7 @@ def install_execute2(w):
 
     cur_fields = ["self._arrow_table", "self._arrow_table_fetch_index", "self._rowcount", "self._last_sql", "self._last_params", "self._sqlstate"]
     ctx_fields = ["self._conn.database", "self._conn.schema", "self._conn.database_set", "self._conn.schema_set"]
-    ghosts = [m for m in X.modifies if m.startswith("$ghost:")] + ["$ghost:$treever"] + ["$ghost:$cl_n", "$ghost:$cl_tag", "$ghost:$cl_a1", "$ghost:$cl_a2", "$ghost:$cl_res", "$ghost:$fmt_n", "$ghost:$fmt_cmd", "$ghost:$fmt_arg", "$ghost:$fmt_out"]
+    ghosts = [m for m in X.modifies if m.startswith("$ghost:")] + ["$ghost:$treever", "$ghost:$parse_n", "$ghost:$parse_text"] + ["$ghost:$cl_n", "$ghost:$cl_tag", "$ghost:$cl_a1", "$ghost:$cl_a2", "$ghost:$cl_res", "$ghost:$fmt_n", "$ghost:$fmt_cmd", "$ghost:$fmt_arg", "$ghost:$fmt_out"]
     heap_any = VARS
     C0 = "old(calls())"
     ORDER = (f"calls() >= {C0} + 1 and call_tag({C0}) == 'inline_variables' and call_arg1({C0}) is self._conn.variables and call_arg2({C0}) == command")
